@@ -178,3 +178,30 @@ Proof.
   - apply distinctb_spec. vm_compute. reflexivity.
   - constructor; intros; reflexivity.
 Qed.
+
+(* ------------------------------------------------------------------ endpoints outside g.Objects are lost *)
+(* d2sequence ends every lifeline edge in a fresh object that is not in g.Objects ("a-lifeline-end-<hash>").
+   SerializeGraph writes its AbsID as Dst, idToObj has no entry for it, DeserializeGraph leaves Dst nil.
+   The object part of the witness is well formed, AbsIDs are distinct, JSON is perfect: only WF's clause
+   wf_ends_valid fails. *)
+Definition without_edges {P E} (g : graph P E) : graph P E :=
+  mkGraph (g_root g) (g_objs g) [] (g_level g).
+
+Definition lifeline_witness : graph unit unit :=
+  mkGraph (mkObj [] None [RObj 0] tt)
+          [ mkObj [97%N] (Some RRoot) [] tt ]
+          [ mkEdge (Some (RObj 0)) (Some (RExt [97%N; 45%N; 101%N])) false false 0%N tt ] 0%Z.
+
+Theorem refuted_for_external_endpoint_thm :
+  exists g : graph unit unit,
+    WF (without_edges g) /\ absids_distinct g /\ json_ok idS idU idU g /\
+    roundtrip idS idU idU g <> None /\
+    option_map structure (roundtrip idS idU idU g) <> Some (structure g).
+Proof.
+  exists lifeline_witness. split; [|split; [|split; [|split]]].
+  - apply wfb_sound. vm_compute. reflexivity.
+  - apply distinctb_spec. vm_compute. reflexivity.
+  - constructor; intros; reflexivity.
+  - vm_compute. discriminate.
+  - vm_compute. intro H. discriminate H.
+Qed.
